@@ -166,3 +166,34 @@ def pair_rule(ctx, rule, classes=("success", "error")):
                            key="%s|%s|%s|error-exit-without-commit|%s" % (ctx.pid, rule, norm(b.npath), failed))
     ctx.floor(rule, "functions bracketing a storage transaction", len(fns), PAIR_FLOOR)
     return fns
+
+
+def _cg(fa):
+    cg = getattr(fa, "_cg_cache", None)
+    if cg is None:
+        from lib.callgraph import CallGraph
+        cg = CallGraph(fa)
+        fa._cg_cache = cg
+    return cg
+
+
+def call_blocks_reaching(fa, b, names, crate="agdb"):
+    """Call blocks of body `b` whose (workspace) callee is one of `names` (normalised paths) or transitively calls one,
+    so that a rule keeps recognising a step after it has been moved into a helper."""
+    cg = _cg(fa)
+    names = set(names)
+    out = []
+    memo = {}
+
+    def hits(tb):
+        if tb.path in memo:
+            return memo[tb.path]
+        memo[tb.path] = False
+        r = norm(tb.npath) in names or cg.reaches(
+            tb, lambda x: norm(x.npath) in names, stop=lambda x: x.crate != crate) is not None
+        memo[tb.path] = r
+        return r
+    for i, t in cfg.calls(b):
+        if norm(cfg.callee(t) or "") in names or any(hits(tb) for tb in cg.targets(t)[0]):
+            out.append(i)
+    return out
